@@ -4424,3 +4424,192 @@ mutant('C05-copy-extent-from-data-only', 'C05',
          "                        i1 = min(src_grp['indices'].shape[0], "
          "i0+chunks[0])\n")],
        'R-TILE', '_copy_layer_to_x_sparse')
+
+# ----------------------------------------------------------------------
+# round 14
+# ----------------------------------------------------------------------
+_CLD = P+'utils/cloud_utils.py'
+mutant('C05-merge-fast-path-span-plus-one', 'C05',
+       'merge_index_list takes last - first + 1 == n + 1 for one block',
+       [(_UU, "    index_list = np.unique(index_list)\n"
+         "    diff_list = np.diff(index_list)\n",
+         "    index_list = np.unique(index_list)\n"
+         "    if index_list[-1] + 1 - index_list[0] == len(index_list) + 1:\n"
+         "        return [(index_list[0], index_list[-1]+1)]\n"
+         "    diff_list = np.diff(index_list)\n")],
+       'R-ARITH/span-contiguity', 'merge_index_list')
+twin('C05-twin-merge-fast-path-correct', 'C05',
+     'merge_index_list returns one range when last - first == n - 1',
+     [(_UU, "    index_list = np.unique(index_list)\n"
+       "    diff_list = np.diff(index_list)\n",
+       "    index_list = np.unique(index_list)\n"
+       "    if index_list[-1] - index_list[0] == len(index_list) - 1:\n"
+       "        return [(index_list[0], index_list[-1]+1)]\n"
+       "    diff_list = np.diff(index_list)\n")])
+twin('C13-twin-merge-fast-path-size', 'C13',
+     'merge_index_list returns one range when the span + 1 is the size',
+     [(_UU, "    index_list = np.unique(index_list)\n"
+       "    diff_list = np.diff(index_list)\n",
+       "    index_list = np.unique(index_list)\n"
+       "    n_idx = index_list.size\n"
+       "    if index_list[-1] + 1 - index_list[0] == n_idx:\n"
+       "        return [(index_list[0], index_list[0]+n_idx)]\n"
+       "    diff_list = np.diff(index_list)\n")])
+mutant('C13-disjoint-loader-span-on-request', 'C13',
+       '_load_disjoint_csr takes a request for one block from its end '
+       'points and length',
+       [(_SU, "    sorted_dex = np.argsort(row_index_list)\n",
+         "    if row_index_list[-1] - row_index_list[0] "
+         "== len(row_index_list) - 1:\n"
+         "        return _load_sparse(\n"
+         "                   indptr_spec=(row_index_list[0],\n"
+         "                                row_index_list[-1]+1),\n"
+         "                   data=data,\n"
+         "                   indices=indices,\n"
+         "                   indptr=indptr)\n"
+         "    sorted_dex = np.argsort(row_index_list)\n")],
+       'R-ARITH/span-contiguity', '_load_disjoint_csr')
+mutant('C07-load-sparse-window-sorted', 'C07',
+       '_load_sparse hands back the cut of the indices sorted, the cut of '
+       'the data as stored',
+       [(_SU, "    these_indices = indices[index0:index1]\n"
+         "    this_data = data[index0:index1]\n",
+         "    these_indices = indices[index0:index1]\n"
+         "    this_data = data[index0:index1]\n"
+         "    if len(these_ptrs) == 2:\n"
+         "        these_indices = np.sort(these_indices)\n")],
+       'R-PERM/parallel-windows-in-step', '_load_sparse')
+twin('C07-twin-load-sparse-cosorted', 'C07',
+     '_load_sparse sorts each row of the cut by column, values along',
+     [(_SU, "    these_indices = indices[index0:index1]\n"
+       "    this_data = data[index0:index1]\n",
+       "    these_indices = indices[index0:index1]\n"
+       "    this_data = data[index0:index1]\n"
+       "    if len(these_ptrs) == 2:\n"
+       "        order = np.argsort(these_indices)\n"
+       "        these_indices = these_indices[order]\n"
+       "        this_data = this_data[order]\n")])
+mutant('C10-header-map-memoised', 'C10',
+       'the header of the data-release CSV is remembered per path for the '
+       'life of the process',
+       [(_DRU, "import json\n", "import functools\nimport json\n"),
+        (_DRU, "def get_header_map(\n",
+         "@functools.lru_cache(maxsize=None)\ndef get_header_map(\n")],
+       'R-MEMO/outside-state-not-in-key', 'get_header_map')
+mutant('C10-header-map-module-table', 'C10',
+       'the header of the data-release CSV is kept in a module-level '
+       'table keyed by path',
+       [(_DRU, "import json\n", "import json\n\n_HEADERS = dict()\n"),
+        (_DRU, "    with open(csv_path, 'r') as src:\n"
+         "        header_line = src.readline()\n",
+         "    if str(csv_path) not in _HEADERS:\n"
+         "        with open(csv_path, 'r') as src:\n"
+         "            _HEADERS[str(csv_path)] = src.readline()\n"
+         "    header_line = _HEADERS[str(csv_path)]\n")],
+       'R-MEMO/outside-state-not-in-key', 'get_header_map')
+mutant('C11-marker-workers-threshold-crossed', 'C11',
+       'the reference-marker workers get qdiff_th in the q1_th slot',
+       [(_MK, "                    'q1_th': q1_th,\n"
+         "                    'qdiff_th': qdiff_th,\n",
+         "                    'q1_th': qdiff_th,\n"
+         "                    'qdiff_th': qdiff_th,\n")],
+       'R-FWD/keyword-not-crossed', 'q1_th')
+twin('C11-twin-marker-workers-slots-reordered', 'C11',
+     'the reference-marker worker kwargs are listed in another order',
+     [(_MK, "                    'q1_th': q1_th,\n"
+       "                    'qdiff_th': qdiff_th,\n",
+       "                    'qdiff_th': qdiff_th,\n"
+       "                    'q1_th': q1_th,\n")])
+mutant('C09-front-end-sorts-unique-paths', 'C09',
+       'precompute_summary_stats_from_h5ad_list_and_tree hands on the '
+       'set of its paths',
+       [(_PA, "    precompute_summary_stats_from_h5ad_and_lookup(\n"
+         "        data_path_list=data_path_list,\n",
+         "    precompute_summary_stats_from_h5ad_and_lookup(\n"
+         "        data_path_list=sorted(set(\n"
+         "            pathlib.Path(p).name for p in data_path_list)),\n")],
+       'R-FWD/handed-on-unchanged', 'data_path_list')
+twin('C09-twin-front-end-alias', 'C09',
+     'the front end hands on its path list through a local',
+     [(_PA, "    precompute_summary_stats_from_h5ad_and_lookup(\n"
+       "        data_path_list=data_path_list,\n",
+       "    these_paths = data_path_list\n"
+       "    precompute_summary_stats_from_h5ad_and_lookup(\n"
+       "        data_path_list=these_paths,\n")])
+mutant('C17-parents-sorted-by-length', 'C17',
+       'the parents of a level are searched shortest name first',
+       [(_EL, "            k_list.sort()\n"
+         "            parent_node_list = ",
+         "            k_list.sort(key=len)\n"
+         "            parent_node_list = ")],
+       'R-ORDER/elections-in-name-order', 'run_type_assignment')
+mutant('C17-parents-in-stored-order', 'C17',
+       'the parents of a level are searched in the order the tree lists '
+       'them',
+       [(_EL, "            k_list.sort()\n"
+         "            parent_node_list = ",
+         "            parent_node_list = ")],
+       'R-ORDER/elections-in-name-order', 'run_type_assignment')
+twin('C17-twin-parents-sorted-expression', 'C17',
+     'the parents of a level are searched in sorted(...) order',
+     [(_EL, "            k_list = taxonomy_tree.nodes_at_level(parent_level)\n"
+       "            k_list.sort()\n"
+       "            parent_node_list = [(parent_level, k) for k in k_list]\n",
+       "            parent_node_list = [\n"
+       "                (parent_level, k) for k in sorted(\n"
+       "                    taxonomy_tree.nodes_at_level(parent_level))]\n")])
+mutant('C18-pairs-from-reversed-leaves', 'C18',
+       'the reference-marker writer enumerates pairs of the leaves '
+       'sorted in reverse',
+       [(_MK, "    leaves = copy.deepcopy(taxonomy_tree.all_leaves)\n"
+         "    leaves.sort()\n",
+         "    leaves = copy.deepcopy(taxonomy_tree.all_leaves)\n"
+         "    leaves.sort(reverse=True)\n")],
+       'R-ORDER/pairs-plainly-oriented', '_prep_output_file')
+mutant('C18-all-pairs-case-folded', 'C18',
+       'get_all_pairs sorts the nodes of a level without regard to case',
+       [(_TXU, "        element_list = list(taxonomy_tree[level].keys())\n"
+         "        element_list.sort()\n",
+         "        element_list = list(taxonomy_tree[level].keys())\n"
+         "        element_list.sort(key=str.lower)\n")],
+       'R-ORDER/pairs-plainly-oriented', 'get_all_pairs')
+twin('C18-twin-pairs-from-sorted-expression', 'C18',
+     'the reference-marker writer enumerates pairs of sorted(leaves)',
+     [(_MK, "    leaves = copy.deepcopy(taxonomy_tree.all_leaves)\n"
+       "    leaves.sort()\n",
+       "    leaves = sorted(taxonomy_tree.all_leaves)\n")])
+mutant('C20-url-words-not-looked-up', 'C20',
+       'words with a scheme prefix are declared harmless without a '
+       'look-up',
+       [(_CLD, "    for char in ('\"', \"'\"):\n"
+         "        word = word.replace(char, '')\n"
+         "    return pathlib.Path(word)\n",
+         "    for char in ('\"', \"'\"):\n"
+         "        word = word.replace(char, '')\n"
+         "    if '://' in word:\n"
+         "        return pathlib.Path('.')\n"
+         "    return pathlib.Path(word)\n")],
+       'R-SAMEVAL/word-tested-as-is', '_word_to_path')
+twin('C20-twin-quotes-removed-by-chain', 'C20',
+     '_word_to_path removes the quotation marks in one expression',
+     [(_CLD, "    for char in ('\"', \"'\"):\n"
+       "        word = word.replace(char, '')\n"
+       "    return pathlib.Path(word)\n",
+       "    return pathlib.Path(\n"
+       "        word.replace('\"', '').replace(\"'\", ''))\n")])
+mutant('C04-census-over-view-union', 'C04',
+       'the reference file of a parent is chosen walking the union of two '
+       'key views',
+       [(_MC, "        for pth in this_census:\n"
+         "            if pth_max is None or this_census[pth] > n_max:\n",
+         "        for pth in this_census.keys() | set():\n"
+         "            if pth_max is None or this_census[pth] > n_max:\n")],
+       'R-TAINT', 'marker_cac')
+twin('C04-twin-census-over-sorted-views', 'C04',
+     'the reference file of a parent is chosen walking the sorted '
+     'intersection of two key views',
+     [(_MC, "        for pth in this_census:\n"
+       "            if pth_max is None or this_census[pth] > n_max:\n",
+       "        for pth in sorted(\n"
+       "                this_census.keys() & precompute_to_ref.keys()):\n"
+       "            if pth_max is None or this_census[pth] > n_max:\n")])
